@@ -327,6 +327,20 @@ def gen_one(rng, i, tier):
     if kind == "rwc-id":
         inp["kind"] = "rwc"
         inp.update(sampler="identity", strat=None, nbs=3)
+        if rng.random() < 0.04:
+            # a support of more than 512 points (all scores of two classes of ~300, or a thousand supplied thresholds on
+            # few scores) with rectangles that reach far along the curve (well separated classes: long flat runs and
+            # rule-of-three rectangles): the envelope is over ALL rectangles covering a point, however far away their index
+            if rng.random() < 0.6:
+                npos_, nneg_ = rng.randint(270, 330), rng.randint(270, 330)
+                shift = rng.choice([6.0, 4.0, 2.5])
+                inp["pos"] = [round(rng.gauss(shift, 1.0), 6) for _ in range(npos_)]
+                inp["neg"] = [round(rng.gauss(0.0, 1.0), 6) for _ in range(nneg_)]
+                inp.update(ep=0, en=0, fnr=None, fpr=None, thr=None, nb=None)
+            else:
+                lo_, hi_ = min(pos + neg), max(pos + neg)
+                inp.update(fnr=None, fpr=None, nb=None,
+                           thr=[lo_ + (hi_ - lo_) * k_ / 700.0 for k_ in range(701)])
     else:
         sm, st = rng.choice(SAMPLERS)
         inp.update(sampler=sm, strat=st, nbs=rng.randint(10, 20))
